@@ -649,13 +649,29 @@ def drive_loop(cl, script, silent, trace):
     cl.silent = silent
     cl.writer = None
     saved_time = _client.time
-    _client.time = types.SimpleNamespace(sleep=lambda s: trace.append("z"), time=saved_time.time)
+    out_of_band = []
+
+    def _sleep(secs):
+        # the interval actually slept is the jitter band in SECONDS: sleeptime(1 - jitter/100)/1000 <= secs <= sleeptime/1000
+        trace.append("z")
+        try:
+            st, jt = Fraction(cl.sleeptime), Fraction(cl.jitter)
+            if st >= 0 and 0 <= jt <= 100:
+                lo, hi = st * (1 - jt / 100) / 1000, st / 1000
+                eps = Fraction(1, 10 ** 9) * (1 + hi)
+                if not (lo - eps <= Fraction(secs) <= hi + eps):
+                    out_of_band.append(secs)
+        except (TypeError, ValueError):
+            pass
+
+    _client.time = types.SimpleNamespace(sleep=_sleep, time=saved_time.time)
     outcome = "end"
     try:
         cl._beacon_loop()
         outcome = "returned"
     except _Done:
-        pass
+        if out_of_band:
+            outcome = "slept-out-of-band"
     except Exception as e:  # noqa: BLE001
         outcome = "exc:" + ("ValueError" if isinstance(e, ValueError) else type(e).__name__)
     finally:
